@@ -130,4 +130,40 @@ def specHistoryP (classes : List PClass) : Nat → List PObj → List (Step × P
       | some r => (i, some r)
       | none => specHistoryP classes (i + 1) g' rest
 
+/-! ### the model's own observations (what the driver prints), as a function of the history -/
+
+/-- the watcher tables of every object, as the harness reads them: per object, per parameter, the
+watchers registered for it in registration order -/
+def watcherRows (w : PWorld) : List (Oid × Name × DW) :=
+  w.objs.zipIdx.flatMap fun (ob, o) =>
+    match w.classes[ob.cls]? with
+    | none => []
+    | some c => c.paramNames.flatMap fun q =>
+        (w.watchers.filter (fun x => x.on = o && x.params.contains q)).map (fun x => (o, q, x))
+
+def errNameP : PErr → String
+  | .value => "ValueError" | .type_ => "TypeError" | .attr_ => "AttributeError" | .illFormed => "illFormed"
+
+def obsOfWorld (w : PWorld) : PStepObs :=
+  { err := none, calls := w.log.map (fun c => (c.owner, c.method)),
+    watchers := (watcherRows w).map (fun (o, q, x) => ⟨o, q, x.owner, x.method⟩) }
+
+/-- run a history; every step starts with an empty log; an exception ends the history -/
+def runHistory : PWorld → List Step → List (Except PErr PWorld)
+  | _, [] => []
+  | w, st :: rest =>
+    match runStep { w with log := [] } st with
+    | .error e => [.error e]
+    | .ok w' => .ok w' :: runHistory w' rest
+
+def emptyWorld (classes : List PClass) : PWorld :=
+  { classes := classes, objs := [], watchers := [], dyn := [], nextId := 0, log := [] }
+
+def modelObs (classes : List PClass) (steps : List Step) : List PStepObs :=
+  (runHistory (emptyWorld classes) steps).map fun
+    | .ok w => obsOfWorld w
+    | .error e => { err := some (errNameP e), calls := [], watchers := [] }
+
+def wfClasses (classes : List PClass) : Bool := classes.all (fun c => c.methods.all (fun m => m.specs.all wfSpecB))
+
 end ParamVerif.Depends
